@@ -292,6 +292,17 @@ def writes_of(prog, qname, depth=3, seen=None, assume=None):
         return out
     seen.add(qname)
     for f in prog.fns(qname):
+        # local references bound to (an element of) a field: a write through the reference is a write of the field
+        refs = {}
+        for n in walk(f['body']):
+            if n.get('k') == 'Decl':
+                for d in n['decls']:
+                    if d.get('type', '').rstrip().endswith('&') and not d.get('type', '').startswith('const ') and d.get('init') is not None:
+                        b = d['init']
+                        while b is not None and (b.get('k') in ('Index', 'Paren', 'Cast') or (b.get('k') == 'Call' and short(b.get('callee')) == 'operator[]')):
+                            b = b.get('base') or b.get('recv') or b.get('e')
+                        if b is not None and b.get('k') == 'Member' and b.get('base', {}).get('k') == 'This':
+                            refs[d['var']['name']] = b['fq']
         for n in (pruned_walk(f['body'], assume) if assume else walk(f['body'])):
             k = n.get('k')
             if k == 'Assign':
@@ -300,6 +311,8 @@ def writes_of(prog, qname, depth=3, seen=None, assume=None):
                     t = t.get('base') or t.get('recv') or t.get('e')
                 if t.get('k') == 'Member' and t.get('base', {}).get('k') == 'This':
                     out.add(t['fq'])
+                elif t.get('k') == 'Var' and t.get('name') in refs:
+                    out.add(refs[t['name']])
             elif k == 'Call':
                 rcv = n.get('recv')
                 if rcv is not None and rcv.get('k') == 'Member' and rcv.get('base', {}).get('k') == 'This' and not n.get('const') and not is_pure_name(short(n.get('callee'))):
